@@ -12,6 +12,7 @@ import Driver.C19
 import Driver.C20
 import Driver.C11
 import Driver.C12
+import Driver.C04
 import Driver.C06
 import Driver.C13
 import Driver.C17
@@ -32,6 +33,8 @@ structure Conf where
   ep : Option C03.Env := none
   ep2 : Option C11.Env := none
   pc : Option C12.Env := none
+  pc4 : Option C04.Env := none
+  pc4m : Option C04.PEnv := none
   cp : C06.State := {}
   map : Option C13.Env := none
   ebmap : Option C13.Eb.Env := none
@@ -63,6 +66,10 @@ def dispatch (c : Conf) (op : String) (args : List String) (got : String) : Opti
     | some e => C03.handle e c.w op args got
     | none => none) <|> (C07.handle e01.cfg op args) <|> (C09.handle c.w c.size c.digs op args got) <|> (C14.handle op args) <|> (C15.handle c.w c.size op args got) <|> (C19.handle latch op args) <|> (C20.handle c.ep c.w op args got) <|> (C18.handle c.ep c.w op args got) <|> (C18.handleSel c.w op args got) <|> (C08.handle op args got) <|> (match c.ep2 with
     | some e => C11.handle e c.w op args got
+    | none => none) <|> (match c.pc4 with
+    | some e => C04.handle e op args got
+    | none => none) <|> (match c.pc4m with
+    | some e => (C04.handleMap e op args got) <|> (C04.handleLine e op args got)
     | none => none) <|> (match c.pc with
     | some e => C12.handle e c.w op args got
     | none => none) <|> (C06.handle c.cp c.ep op args got) <|> (match c.map with
@@ -131,10 +138,10 @@ partial def loop (h : IO.FS.Stream) (out : IO.FS.Stream) (c : Conf) : IO Unit :=
       | some e =>
         let bad := C12.checkParam e
         out.putStrLn (if bad.isEmpty then "ok pc_param" else "FAIL S model=[] spec=[" ++ String.intercalate ";" bad ++ "] got=[" ++ got ++ "]")
-        loop h out { c with pc := some e }
+        loop h out { c with pc := some e, pc4 := C04.mkEnv e, pc4m := (C04.mkEnv e).bind C04.mkPEnv }
       | none =>
         out.putStrLn (if got == "err" then "ok pc_param-rejected" else "FAIL S model=[] spec=[parsable pc_param] got=[" ++ got ++ "]")
-        loop h out { c with pc := none }
+        loop h out { c with pc := none, pc4 := none, pc4m := none }
     | _ => out.putStrLn "skip"; loop h out c
   else if line.startsWith "ep2_param " then
     match line.splitOn " => " with
